@@ -945,12 +945,14 @@ impl CommitEnv for LsmCommitEnv {
 		// Write to WAL for durability
 		let enc_bytes = processed_batch.encode()?;
 		let mut wal_guard = self.core.wal.write();
+		// The gate at the top of `commit` is read before `write_mutex` is taken: a
+		// committer that passed it while an earlier commit's log write was failing
+		// arrives here next. Nothing may be appended behind a torn record.
+		self.core.error_handler.check_error()?;
 		let mut logged = wal_guard.append(&enc_bytes).map(|_| ());
 		if logged.is_ok() && sync {
 			logged = wal_guard.sync();
 		}
-		drop(wal_guard);
-
 		if let Err(e) = logged {
 			// The segment may now end in a partial record (a header without its
 			// payload, or bytes that never reached the disk): whatever is appended
@@ -961,6 +963,7 @@ impl CommitEnv for LsmCommitEnv {
 			self.core.error_handler.set_error(e.clone(), BackgroundErrorReason::WalWrite);
 			return Err(e);
 		}
+		drop(wal_guard);
 
 		Ok(processed_batch)
 	}
